@@ -63,7 +63,7 @@ def k_batch(N=3, G=1, mode="both", states=2, max_est=10000, sym_np=True, shapes=
         ex = W["ex"]
         k = len(W["sbatch"])
         fail = ex.flag("sbfail%d" % k) if sbatch_fail else False
-        active_before = sum(1 for s in W["statuses"].values() if s == HpcJobStatus.RUNNING) + sum(
+        active_before = len(W["statuses"]) + sum(
             1 for s in W["sbatch"] if s["ok"])
         W["sbatch"].append(dict(file=filename, ok=not fail, account=self._config.hpc.account,
                                 active_before=active_before))
@@ -139,7 +139,8 @@ def k_batch(N=3, G=1, mode="both", states=2, max_est=10000, sym_np=True, shapes=
         active_ids = [str(900 + k) for k in range(n_active)]
         for k, jid in enumerate(active_ids):
             if not ex.flag("fin%d" % k):
-                W["statuses"][jid] = HpcJobStatus.RUNNING
+                # listed by the scheduler and not finished: running, queued, or a state JADE does not know (e.g. SUSPENDED)
+                W["statuses"][jid] = [HpcJobStatus.RUNNING, HpcJobStatus.QUEUED, HpcJobStatus.UNKNOWN][ex.choice("state%d" % k, 3)]
         start_index = 1 + n_active + sum(1 for s in st if s != 0)  # any persisted index beyond earlier batches
         cc = ClusterConfig(path=out, num_jobs=N, submitter="h", submission_groups=groups, version=1,
                            submitted_jobs=sum(1 for s in st if s != 0), completed_jobs=sum(1 for s in st if s == 2))
